@@ -1203,7 +1203,7 @@ def call_builtin(ip, st, f, args, kwargs):
     if isinstance(f, operator.attrgetter) and len(args) == 1 and not kwargs:
         # operator.attrgetter('a.b', ...)(obj): CPython reads the (dotted) attributes of obj, one value for one name,
         # a tuple for several.  The names are recovered from the object's pickle form (attrgetter, names).
-        names = f.__reduce__()[1]
+        names = f.__reduce__()[1]  # (cross-check: static check `engine-rules-agree-with-cpython`, contracts/C19_gridflow.py)
 
         def read(name):
             o = args[0]
